@@ -37,7 +37,7 @@ Print Assumptions C10_created_indentation_obeys_the_setting.
    the tokens it prints pass the newline and indentation discipline for every program and every configuration
    (the end-of-file clause is validated by the tie only) *)
 From SV Require Fmt0 Fmt0Proof.
-Theorem C10_L0_output_obeys_the_discipline : forall c p eof, Fmt0Proof.wf_block p ->
+Theorem C10_L0_output_obeys_the_discipline : forall c p eof, Fmt0Proof.wf_blk p ->
   Census.ws_scan (Fmt0Proof.wcfg c eof) true false (Fmt0.pprog c p) = None.
 Proof. exact Fmt0Proof.format0_whitespace_discipline. Qed.
 Print Assumptions C10_L0_output_obeys_the_discipline.
